@@ -459,7 +459,7 @@ def rule_crc(P, rep, f, dead):
             t, ci = cmpbr
             eq_edge = t.ops[2][1] if ci.pred == 'eq' else t.ops[1][1]
             ne_edge = t.ops[1][1] if ci.pred == 'eq' else t.ops[2][1]
-            ok = (ci.pred in ('eq', 'ne') and f.bdominates(eq_edge, s.block) and ne_edge in dead and f.dominates(scrc[0], rd[0]) and f.dominates(rd[0], t)
+            ok = (ci.pred in ('eq', 'ne') and f.edge_dominates(t, eq_edge, s) and ne_edge in dead and f.dominates(scrc[0], rd[0]) and f.dominates(rd[0], t)
                   and not _reaches_without(f, ne_edge, s.block, -1))
             det = 'store on the equal edge of %s; mismatch side cannot return; scrc() precedes sgetble32(&crc_stored)' % f.expr(['i', ci.id])
     rep.check(ok, 'R-C09-4', 'crc_checked is set only after stored == computed', stores[0].loc() if stores else f.file, det, function='state_read_content', construct='crc compare')
@@ -560,7 +560,7 @@ def rule_save_protocol(ctx, rep):
             # the success return (null) is reachable only through the equal edge
             succ_rets = [s for s in v.all_insts() if s.op == 'store' and v.expr(s.ops[1]) == '&retval' and v.const_of(s.ops[0]) == 0]
             eq_edge = t.ops[2][1] if ci.pred == 'eq' else t.ops[1][1]
-            ok = bool(succ_rets) and all(v.bdominates(eq_edge, s.block) for s in succ_rets) and ci.pred in ('eq', 'ne')
+            ok = bool(succ_rets) and all(v.edge_dominates(t, eq_edge, s) for s in succ_rets) and ci.pred in ('eq', 'ne')
         rep.check(ok, 'R-C09-6', 'state_verify_thread: success only if %s' % ('stored CRC == writer CRC' if k == 0 else 'file CRC == stored CRC'), v.file, hit[0][2] if hit else 'comparison not found', function='state_verify_thread', construct='compare %d' % k)
     sd = list(v.calls('sdeplete')); sc = list(v.calls('scrc'))
     rep.check(len(sd) == 1 and len(sc) == 1 and v.dominates(sd[0], sc[0]), 'R-C09-6', 'state_verify_thread: CRC taken after the whole file was consumed', v.file, 'sdeplete dominates scrc', function='state_verify_thread', construct='deplete before crc')
